@@ -39,7 +39,7 @@ POSITIONAL = H.POSITIONAL
 
 def plan(tier):
     if tier == "quick":
-        return {"ncases": 1200, "nshards": 16, "budget_s": 75, "floor": 8000, "stall_s": 60}
+        return {"ncases": 1000, "nshards": 16, "budget_s": 75, "floor": 8000, "stall_s": 60}
     return {"ncases": 60000, "nshards": 16, "budget_s": 1800, "floor": 300000, "stall_s": 240}
 
 
